@@ -51,12 +51,14 @@ def run_config(P: Dict[str, Any], args: List[Any], cfg: Dict[str, Any]) -> Tuple
 
     via = cfg.get("via", "decorator")
     old_dbg = tawazi.cfg.RUN_DEBUG_NODES
-    tawazi.cfg.RUN_DEBUG_NODES = bool(cfg.get("debug"))
+    # RUN_DEBUG_NODES is a run-time switch: its value while the DAG is being DESCRIBED must not matter
+    tawazi.cfg.RUN_DEBUG_NODES = bool(cfg.get("build_debug", cfg.get("debug")))
     try:
         try:
             b = prog.build(P, is_async=bool(cfg.get("async")), mc=cfg.get("mc", 1), decorate_attrs=(via == "decorator"))
             if via != "decorator":
                 apply_config(b, P, via)
+            tawazi.cfg.RUN_DEBUG_NODES = bool(cfg.get("debug"))
         except BaseException as e:  # noqa: BLE001
             if isinstance(e, KeyboardInterrupt):
                 raise
@@ -102,7 +104,7 @@ def configs(draw: Any, n: int = 3, sites: Optional[List[str]] = None, modes: Any
         c: Dict[str, Any] = {"async": draw(st.booleans()), "mc": draw(st.integers(1, 5)),
                              "mode": draw(st.sampled_from(list(modes))),
                              "via": draw(st.sampled_from(["decorator", "decorator", "dict", "yaml", "json"])),
-                             "debug": draw(st.booleans())}
+                             "debug": draw(st.booleans()), "build_debug": draw(st.booleans())}
         if c["mode"] == "ctl":
             c["choices"] = draw(st.lists(st.integers(0, 2**16), max_size=10))
         elif sites:
